@@ -18,28 +18,28 @@ Import RecordSetNotations.
 
 Theorem C02_step_never_hangs : forall cx s op s' o, seed_ok cx -> step cx s op = (s', o) ->
   o <> OutTx CHang "" /\ (forall d, o <> OutBlock BHung d) /\ (forall d, o <> OutTx CHang d).
-Proof. exact step_never_hangs. Qed.
+Proof. first [exact step_never_hangs | apply step_never_hangs]. Qed.
 Print Assumptions C02_step_never_hangs.
 
 Theorem C02_random_index_terminates : forall seed total count,
   0 <= seed -> seed < 10 ^ 400 ->
   random_index seed total count <> SelHang /\ random_index seed total count <> SelPanic.
-Proof. exact random_index_terminates. Qed.
+Proof. first [exact random_index_terminates | apply random_index_terminates]. Qed.
 Print Assumptions C02_random_index_terminates.
 
 Theorem C02_next_super_terminates : forall nodes pledges round0 ignore size,
   next_super nodes pledges round0 ignore size <> SelHang.
-Proof. exact next_super_terminates. Qed.
+Proof. first [exact next_super_terminates | apply next_super_terminates]. Qed.
 Print Assumptions C02_next_super_terminates.
 
 Theorem C02_random_sp_terminates : forall nodes pledges round0 seed count ignore size,
   0 <= seed -> seed < 10 ^ 400 ->
   random_sp nodes pledges round0 seed count ignore size <> SelHang.
-Proof. exact random_sp_terminates. Qed.
+Proof. first [exact random_sp_terminates | apply random_sp_terminates]. Qed.
 Print Assumptions C02_random_sp_terminates.
 
 Theorem C02_begin_block_mint_refuted : exists cx s s' d,
   step cx s OBeginBlock = (s', OutBlock BOk d) /\
   ~ exists m, 0 <= m /\ supply s' = supply s + m /\ m <= np_reward (nparams s).
-Proof. exact begin_block_mint_refuted. Qed.
+Proof. first [exact begin_block_mint_refuted | apply begin_block_mint_refuted]. Qed.
 Print Assumptions C02_begin_block_mint_refuted.
